@@ -21,6 +21,7 @@ import (
 	"time"
 
 	"github.com/piotrnar/gocoin/lib/btc"
+	"github.com/piotrnar/gocoin/lib/chain"
 	"github.com/piotrnar/gocoin/lib/others/vhook"
 	"github.com/piotrnar/gocoin/lib/utxo"
 	"verif/chainkit"
@@ -81,10 +82,10 @@ type WorkerOut struct {
 type CommitCase struct {
 	Note    string   `json:"note"`
 	Verdict string   `json:"verdict"`
-	Nins    []int    `json:"nins,omitempty"`  // inputs per transaction (coinbase = 0)
-	Bad     [][2]int `json:"bad,omitempty"`   // (tx, input) with a corrupted signature
-	Early   int      `json:"early"`           // index of the tx at which the main loop returns early, -1 none
-	Model   bool     `json:"model"`           // structural data present: compare with the Lean fan-out model
+	Nins    []int    `json:"nins,omitempty"` // inputs per transaction (coinbase = 0)
+	Bad     [][2]int `json:"bad,omitempty"`  // (tx, input) with a corrupted signature
+	Early   int      `json:"early"`          // index of the tx at which the main loop returns early, -1 none
+	Model   bool     `json:"model"`          // structural data present: compare with the Lean fan-out model
 }
 
 // ------------------------------------------------------------------------------------ recorder
@@ -97,7 +98,7 @@ type recorder struct {
 	dir     string
 	cfg     string
 	snaps   []Snap
-	want    map[string]Res // tip hash -> reference result at that tip
+	want    map[string]Res    // tip hash -> reference result at that tip
 	onPoint func(name string) // directed scenarios: forced schedule
 }
 
@@ -274,11 +275,12 @@ func execOp(k *chainkit.Kit, op *Op, rc *recorder, reference bool) (res Res) {
 // ------------------------------------------------------------------------------------ scenario generation
 
 type scenario struct {
-	name string
-	gt   uint32
-	ops  []Op
-	ref  []Res
-	hist map[string]int
+	name  string
+	compr bool // the chain keeps its UTXO records in the compressed format (ChainOpts.CompressUTXO)
+	gt    uint32
+	ops   []Op
+	ref   []Res
+	hist  map[string]int
 }
 
 func (sc *scenario) want() map[string]Res {
@@ -289,19 +291,39 @@ func (sc *scenario) want() map[string]Res {
 	return m
 }
 
-func genScenario(seed uint64, thorough bool, gt uint32) (*scenario, []CommitCase) {
+// kitOpts: chain options of a scenario (reference run and every replay use the same).
+func kitOpts(gt uint32, compr bool) chainkit.Opts {
+	o := chainkit.Opts{GenesisTime: gt}
+	if compr {
+		o.ChainOpts = &chain.NewChanOpts{CompressUTXO: true}
+	}
+	return o
+}
+
+// genScenario: compr selects the compressed-records variant: UTXO records are serialized by SerializeC (shared
+// scratch pool under comp_pool_mutex); blocks carry > 32 new transactions (several do_add workers of
+// UnspentDB.commit serialize at the same time) which partially spend earlier fan-outs (do_del workers
+// re-serialize the remaining outputs) while the undo goroutine serializes the spent records.
+func genScenario(seed uint64, thorough bool, gt uint32, compr bool) (*scenario, []CommitCase) {
 	runtime.GOMAXPROCS(1)
 	vhook.Set(nil)
 	utxo.UTXO_WRITING_TIME_TARGET = 0
 	g := vlib.NewRng(seed)
-	k, err := chainkit.New(chainkit.Opts{GenesisTime: gt}, g.Fork())
+	k, err := chainkit.New(kitOpts(gt, compr), g.Fork())
 	if err != nil {
 		panic(err)
 	}
 	defer k.Close()
-	sc := &scenario{name: "chain", gt: gt, hist: map[string]int{}}
+	sc := &scenario{name: "chain", gt: gt, hist: map[string]int{}, compr: compr}
 	var cases []CommitCase
 	ge := newGen(k, g.Fork())
+	ge.cheap = compr
+	if compr {
+		sc.name = "compr"
+		if !k.Ch.Unspent.ComprssedUTXO {
+			panic("the chain did not come up in compressed-UTXO mode")
+		}
+	}
 	do := func(op Op) Res {
 		r := execOp(k, &op, nil, true)
 		sc.ops = append(sc.ops, op)
@@ -319,10 +341,21 @@ func genScenario(seed uint64, thorough bool, gt uint32) (*scenario, []CommitCase
 		rounds, ntx, maxin = 28, 14, 8
 	}
 	kinds := []string{"valid", "valid", "valid", "badsig", "valid", "dblspend", "valid", "unknown", "overspend", "valid", "badsig", "malformed", "side", "sidebad"}
+	fixed := []string{"valid", "valid", "badsig", "malformed", "side", "dblspend", "sidebad", "valid"} // corpus part: always present
+	if compr {
+		rounds, maxin = 8, 2
+		if thorough {
+			rounds = 20
+		}
+		kinds = []string{"valid", "valid", "valid", "side", "valid", "badsig", "sidebad", "valid"}
+		fixed = []string{"valid", "valid", "valid", "side", "valid", "sidebad", "valid"}
+	}
 	for round := 0; round < rounds; round++ {
 		ge.refresh()
+		if compr {
+			ntx = 40 + g.Intn(45) // > 32 new records: at least two do_add workers
+		}
 		kind := kinds[g.Intn(len(kinds))]
-		fixed := []string{"valid", "valid", "badsig", "malformed", "side", "dblspend", "sidebad", "valid"} // corpus part: always present
 		if round < len(fixed) {
 			kind = fixed[round]
 		}
@@ -377,6 +410,13 @@ func genScenario(seed uint64, thorough bool, gt uint32) (*scenario, []CommitCase
 			}
 			r := do(Op{Kind: "block", Raw: k.Build(spec), Note: note})
 			sc.hist["block:"+kind]++
+			if compr {
+				if len(txs) > 32 && r.Verdict == "ok" {
+					sc.hist["compr:block-over-32-txs"]++
+				} else {
+					sc.hist["compr:block-small-or-rejected"]++
+				}
+			}
 			cc := CommitCase{Note: note, Verdict: r.Verdict, Early: -1, Nins: []int{0}}
 			for _, tx := range txs {
 				cc.Nins = append(cc.Nins, len(tx.TxIn))
@@ -419,7 +459,7 @@ func replay(sc *scenario, cfg Cfg, out *WorkerOut) {
 	defer func() { out.Timing = append(out.Timing, fmt.Sprintf("%s %.1fs", cfg.Name, time.Since(t0).Seconds())) }()
 	runtime.GOMAXPROCS(cfg.Procs)
 	utxo.UTXO_WRITING_TIME_TARGET = time.Duration(cfg.TargetU) * time.Microsecond
-	k, err := chainkit.New(chainkit.Opts{GenesisTime: sc.gt}, vlib.NewRng(1))
+	k, err := chainkit.New(kitOpts(sc.gt, sc.compr), vlib.NewRng(1))
 	if err != nil {
 		panic(err)
 	}
@@ -562,8 +602,8 @@ func directedResave(seed uint64, gt uint32, out *WorkerOut) {
 	for t0 := time.Now(); time.Since(t0) < 400*time.Millisecond && atomic.LoadInt32(&blocked) == 0; {
 		time.Sleep(200 * time.Microsecond)
 	}
-	k.MustExtend(nil, 0)  // N+1
-	k.Ch.UndoLastBlock()  // back to N (what a failed reorg does)
+	k.MustExtend(nil, 0) // N+1
+	k.Ch.UndoLastBlock() // back to N (what a failed reorg does)
 	// Idle does not save again at the height already on disk, but Close does (DirtyDB is set by the undo):
 	// save #2 of tip N uses the same temporary file name while file goroutine #1 is still alive.
 	closed := make(chan bool)
@@ -597,7 +637,7 @@ func workerMain(args []string) {
 	seed := fs.Uint64("seed", 1, "")
 	tier := fs.String("tier", "quick", "")
 	outp := fs.String("out", "", "")
-	only := fs.String("only", "", "run only this part: chain | resave")
+	only := fs.String("only", "", "run only this part: chain | resave | compr")
 	shard := fs.Int("shard", 0, "")
 	fs.Parse(args)
 	out := &WorkerOut{Seed: *seed, Hist: map[string]int{}}
@@ -618,7 +658,7 @@ func workerMain(args []string) {
 	}
 	if *only == "" || *only == "chain" {
 		t0 := time.Now()
-		sc, cases := genScenario(mix(*seed, uint64(*shard)+1), thorough, gt)
+		sc, cases := genScenario(mix(*seed, uint64(*shard)+1), thorough, gt, false)
 		out.Timing = append(out.Timing, fmt.Sprintf("gen %.1fs", time.Since(t0).Seconds()))
 		out.Scenario = sc.name
 		out.Ref = sc.ref
@@ -645,6 +685,36 @@ func workerMain(args []string) {
 			cfg.Name = fmt.Sprintf("r%d-p%d-t%d-aux%v", i, cfg.Procs, cfg.TargetU, cfg.Aux)
 			replay(sc, cfg, out)
 			out.Hist[fmt.Sprintf("replay:procs=%d", cfg.Procs)]++
+		}
+	}
+	if *only == "" || *only == "compr" {
+		// compressed-records mode: SerializeC's shared scratch pool with several serializations in flight
+		t0 := time.Now()
+		sc, _ := genScenario(mix(*seed, 1000+uint64(*shard)), thorough, gt, true)
+		out.Timing = append(out.Timing, fmt.Sprintf("compr-gen %.1fs", time.Since(t0).Seconds()))
+		if out.Scenario == "" {
+			out.Scenario = sc.name
+			out.Ref = sc.ref
+			for _, op := range sc.ops {
+				out.Ops = append(out.Ops, op.Kind+" "+op.Note)
+			}
+		}
+		for k, v := range sc.hist {
+			out.Hist[k] += v
+		}
+		g := vlib.NewRng(mix(*seed, 1077+uint64(*shard)))
+		procs := []int{4, 16, 8}
+		n := 3
+		if thorough {
+			procs = []int{2, 4, 8, 16, 3, 12}
+			n = 6
+		}
+		for i := 0; i < n; i++ {
+			cfg := Cfg{Procs: procs[i%len(procs)], Perturb: g.U64() | 1, Aux: i%2 == 1}
+			cfg.TargetU = int64(g.Pick(0, 2000, 20000))
+			cfg.Name = fmt.Sprintf("c%d-p%d-t%d-aux%v-compr", i, cfg.Procs, cfg.TargetU, cfg.Aux)
+			replay(sc, cfg, out)
+			out.Hist[fmt.Sprintf("replay-compr:procs=%d", cfg.Procs)]++
 		}
 	}
 }
